@@ -572,7 +572,7 @@ def sym_search(ip, pattern, subject, mode='search', pos=None, endpos=None, node=
         subject = subject.v
     if subject is None or isinstance(subject, (int, list, tuple, dict)) or (isinstance(subject, SV) and not subject.is_str()):
         raise Raised(TypeError("expected string or bytes-like object"))
-    if pos not in (None, 0):
+    if isinstance(pos, (SV, SOpt)) or pos not in (None, 0):
         raise Unsupported("regex search with pos")
     s_full = subject.t if isinstance(subject, SV) else z3.StringVal(subject)
     if endpos is not None:
